@@ -1,6 +1,7 @@
 import FastQr.Proofs.BlockSplit
 import FastQr.Proofs.RoundTrip
 import FastQr.Proofs.Distance
+import FastQr.Props.C02Syn
 /-
 C02 end to end: EC codewords are bytes; the reference decoder's block split of the final matrix over
 `structure(data)` is (crate data slice, its EC codewords) per block with zero remainder bits; every built
@@ -73,7 +74,7 @@ theorem decode_structure {v m : Nat} (hv : v < 40) (hm : m < 8) (l : ECL) (data 
   have hmb : T.dataCodewords l v ≤ T.maxBytes v := by omega
   have hfmt := FormatRead.formatCopy1_final hv hm l S
   have hff := (FormatRead.format_facts l hm).2
-  rw [← Props.C04.C04_format_table l hm] at hff
+  rw [← FormatRead.format_table l hm] at hff
   have hbits := ReadBack.readBits_final hv hm l S
   have hcut := CutBytes.bytesOfBits_bitsFrom S (T.missingBits v) hmiss (T.maxBytes v) 0
   have hbf : (List.range (8 * T.maxBytes v + T.missingBits v)).map (bitAt S) =
